@@ -41,7 +41,7 @@ func init() {
 		Property: "C09", Level: "exploration",
 		Rule:   "subs scenario: swarm over service name (empty, simple, dotted), ownership nil or explicit lists (overlapping, nested, duplicated, wildcarded, empty, foreign entries), handler-kind combinations, queue group default/empty/named; the service is served on the simulated broker, which enforces NATS subject rules at subscribe time; ResetAll from a foreign goroutine.",
 		Oracle: "for generated concrete request subjects inside, at the boundary of and outside every owned pattern and for each request type: a subject under >=1 owned pattern is routed to >=1 subscription, under exactly one owned pattern to exactly one (and gets exactly one response end to end), under none to none; every subscribed subject is a valid NATS subject; the first message of the epoch and every later system.reset list exactly the owned patterns of the ownership model (defaults: name and name.> per handler kind actually registered, > when the name is empty).",
-		Scen:   []ScenBudget{{"subs", 4000, 200000}},
+		Scen:   []ScenBudget{{"subs", 4000, 200000}, {"tierb", 300, 15000}},
 	})
 	addCheck(&CheckSpec{
 		Property: "C11", Level: "exploration", OwnsPanics: true,
@@ -81,14 +81,14 @@ func init() {
 		Property: "C15", Level: "exploration", OwnsPanics: true,
 		Rule:   "queryevent scenario: call handlers start 1-4 query events per run on resources in shared groups; the peer sends query requests (valid, missing query, malformed JSON) at tape-chosen instants relative to expiry: well inside the window, buffered in the subscription channel when the timer fires, after the drain was requested, more than the channel holds at once; callbacks reply with model/collection/events/errors, panic with each value kind or do nothing; the query subscription fails for some; expiry by advancing the simulated clock (50 ms, 1 s, 3 s durations).",
 		Oracle: "each query request delivered while the event was active gets exactly one response of the predicted kind (error for missing query or malformed payload); callbacks run under the C01 occupancy counter of the resource's group; after expiry the callback was invoked with nil exactly once, not before the configured duration, and no invocation with a request starts after it; a failed subscription yields exactly one nil call and no query event; after everything settled and the service was shut down no goroutine of the process is inside startQueryListener.",
-		Scen:   []ScenBudget{{"queryevent", 4000, 250000}},
+		Scen:   []ScenBudget{{"queryevent", 4000, 250000}, {"tierb", 300, 15000}},
 		Assumptions: []string{"tier A cannot observe Subscription.Drain on the zero-value subscription it hands out; the server-side effect of Drain is emulated at the instrumented point directly after the Drain call"},
 	})
 	addCheck(&CheckSpec{
 		Property: "C19", Level: "exploration", OwnsPanics: true,
 		Rule:   "sendreq scenario (tier A): resprot.SendRequest runs as a task against a scripted peer on the simulated clock: up to 5 messages with delays of 0 ms to 4 s drawn from valid results, error and resource responses, garbage, empty payload, timeout pre-responses and malformed pre-responses; messages that arrive back to back while the requester has not started waiting (inbox channel capacity 1, drop on full as nats.go does); failing subscribe or publish; nil, object and unmarshalable request values; 0-2 extension callbacks. Arrival instants and deadlines never coincide (10 ms grid versus 5 ms offsets), so timer and inbox are never ready together.",
 		Oracle: "a timed reference model walks the script and predicts the returned response (kind, error code, result, resource id), the exact simulated instant of return and the durations handed to the extension callbacks; all three must match; SendRequest must return within 80 simulated seconds.",
-		Scen:   []ScenBudget{{"sendreq", 6000, 400000}},
+		Scen:   []ScenBudget{{"sendreq", 6000, 400000}, {"tierb", 300, 15000}},
 		Assumptions: []string{"tier A hands out a zero-value subscription, so the release of the inbox subscription is not observable here"},
 	})
 	addCheck(&CheckSpec{
